@@ -54,6 +54,7 @@ type entry struct {
 var (
 	entries = map[string]*entry{}
 	order   []string
+	cutAny  bool // some search was cut by the internal deadline (recorded with r.Incomplete)
 )
 
 // searchFrom runs k = kmin..kmax from the state built by mk and records the largest completed k for the
@@ -70,6 +71,7 @@ func searchFrom(r *ev.Run, c *cfg, what string, mk func(s *searcher) (gstate, []
 	for k := kmin; k <= kmax; k++ {
 		if r.OutOfTime() {
 			r.Incomplete(fmt.Sprintf("%s: deadline before k=%d (completed k=%d)", key, k, done))
+			cutAny = true
 			break
 		}
 		s := newSearcher(c, r, key)
@@ -82,6 +84,7 @@ func searchFrom(r *ev.Run, c *cfg, what string, mk func(s *searcher) (gstate, []
 		t0 := time.Now()
 		if !s.run(g0, k, pre) {
 			r.Incomplete(fmt.Sprintf("%s: k=%d cut by the deadline (completed k=%d)", key, k, done))
+			cutAny = true
 			break
 		}
 		done, last, lastDur = k, s, time.Since(t0)
@@ -141,10 +144,7 @@ func TestCheck(t *testing.T) {
 		if ob := envInt("VERIF_C12_ONLYBYZ", -1); ob >= 0 && ob != b {
 			continue
 		}
-		k := 3
-		if b == 0 {
-			k = ev.Pick(r, 2, 3)
-		}
+		k := ev.Pick(r, 2, 3) // quick: byz=1,2 are deepened to k=3 after the scenarios
 		if kA >= 0 {
 			k = kA
 		}
@@ -185,16 +185,33 @@ func TestCheck(t *testing.T) {
 	}
 
 	// ---- deepening (thorough): one more deviation, cheapest first; a deadline cut only loses these ------------
+	if r.Quick() && kA < 0 {
+		searchFrom(r, aCfg(2), "A", fromStart, 3, 3)
+		searchFrom(r, aCfg(1), "A", fromStart, 3, 3)
+	}
 	if r.Thorough() && kA < 0 && envInt("VERIF_C12_KB", -1) < 0 {
-		scs := scenarios()
+		var scs []scenario
+		for _, sc := range scenarios() {
+			if entries["B "+sc.name] != nil { // base level completed (else the cut is already recorded)
+				scs = append(scs, sc)
+			}
+		}
 		sort.SliceStable(scs, func(i, j int) bool { return entries["B "+scs[i].name].res.States < entries["B "+scs[j].name].res.States })
+		for len(scs) < 2 {
+			scs = append(scs, scenario{})
+		}
 		for _, sc := range scs[:2] {
+			if sc.name == "" {
+				continue
+			}
 			runScenario(sc, 3, 3)
 		}
 		searchFrom(r, aCfg(2), "A", fromStart, 4, 4)
 		searchFrom(r, aCfg(1), "A", fromStart, 4, 4)
 		for _, sc := range scs[2:] {
-			runScenario(sc, 3, 3)
+			if sc.name != "" {
+				runScenario(sc, 3, 3)
+			}
 		}
 	}
 
@@ -243,7 +260,7 @@ func TestCheck(t *testing.T) {
 			r.Sample(x)
 		}
 	}
-	if len(ls) < 4 && r.Violations() == 0 {
+	if len(ls) < 4 && r.Violations() == 0 && !cutAny {
 		r.Infra("vacuous exploration: only %d distinct outcomes %v", len(ls), ls)
 	}
 	pprof.StopCPUProfile()
